@@ -356,12 +356,15 @@ def end_to_end_with_the_real_solver(name, replay=None):
     die_spec, net = DESIGNS[name]
     failures, evals = [], 0
     samples = []
-    for th, alpha, grid, iters in ((0.95, 0.3, (2, 2), 2), (0.7, 0.5, None, 1)):
+    # the third setting starts from a NON-square initial grid (added after seed C10-7: rows and columns swapped in the grid put cells outside the die)
+    for th, alpha, grid, iters in ((0.95, 0.3, (2, 2), 2), (0.7, 0.5, None, 1), (0.9, 0.3, (2, 3), 1)):
         Rectangle.undefine_epsilon()
         n = Netlist(net)
         d = Die(die_spec, n)
         if grid and not d.blockages and not d.fixed_regions:
             d.initial_grid(*grid)
+        elif grid == (2, 3):
+            continue            # the non-square grid needs a clean die
         else:
             d.split_refinable_regions(2.0, 3)
         before = {m.name: [(r.shape.w, r.shape.h, r.center.x, r.center.y) for r in m.rectangles] for m in n.modules}
@@ -412,7 +415,7 @@ def end_to_end_with_the_real_solver(name, replay=None):
                 rule="concrete designs (soft + fixed, a soft module initially overlapping a fixed one, flippable L-shaped hard module, "
                      "blockage + fixed block) through glbfloor with two parameter settings; output checked against the property with "
                      "tolerance 1e-4 (1e-2 for the capacity, the solver's tolerance); runs where the solver reports no solution are skipped",
-                samples=samples or [dict(design=name)], bound="5 designs x 2 settings")
+                samples=samples or [dict(design=name)], bound="7 designs x 3 settings")
 
 
 @contract(P, canary=True, exact_feas_ms=50)
